@@ -3,7 +3,7 @@ CONSTANTS
   CopyOut = TRUE
   DecodeCopies = TRUE
   NPool = 2
-  MaxSteps = 8
+  MaxSteps = 7
   MaxLive = 3
 INVARIANT NoAlias
 PROPERTY Frame
